@@ -17,7 +17,13 @@ brought to the case's values -- by changing what the key functions return for th
 mutation seen through a key), by rebinding fields behind the instance (object.__setattr__), or through
 attr.assoc / attr.evolve / copy.copy of the already-compared instance.  The model is a function of the current
 values only, so every comparison must equal the tuple comparison of the values current at that time; and the
-comparisons must leave nothing behind on the instances (`residue`).
+comparisons must leave nothing behind on the instances or on the classes (`residue`).
+More harness-only dimensions the model is independent of: `truth` (what bool() does on each raw value and each key
+result: true / false / raises -- a key function may map a value to 0, "", () ...; the keyed object is still the one
+compared), `pre` (the earlier life of the class family: instances of the ancestor with its own generated ordering, of
+a sibling, of the subclass have been compared before C's instances ever are; classes are built afresh per `pre`),
+`redef` on an own field (the base class defines the same field with other cmp/eq/order arguments and C overrides it;
+only honoured when ordering is requested explicitly for C, so that the base's definition never applies to C).
 
 Observed: the class-level call's error kind, the fields whose attr.ib() raised ValueError, where each of the
 four methods of C comes from (attrs-generated in C / user's / inherited attrs-generated / object's), the
@@ -46,7 +52,9 @@ RULE = ("cases = class-level (api x cmp x eq x order x auto_detect x own orderin
         "functions and participation patterns, subset partial order and NaN, operand kinds x method provenance, random fill "
         "(<=5 fields) with a malformed stream (12%), histories (block: kind in rekey/rebind/assoc/evolve/copy x who x key shape x "
         "frozen explicit/inherited x slots, and 30% of the random block: earlier values compared and sorted, then changed); "
-        "field names permuted; non-trivial = class built, ordering generated, and "
+        "class families (block: 5 front-end settings x 8 pre-comparison orders of ancestor/sibling/subclass x base ordered x "
+        "inherited/own field counts x key shapes, with overriding redefinitions), truthiness of key results (block: 7 key shapes "
+        "x {true,false,raises}^2 per operand), and both as random decoration of every other block; field names permuted; non-trivial = class built, ordering generated, and "
         "(other-class operand or at least one value comparison performed); distinct = distinct JSON case")
 ASSUMPTIONS = [
     "the values' reflected comparisons agree (yv > xv is xv < yv, yv == xv is xv == yv), as Python's data model asks: y-side scripted values answer with the mirror of the script; the trace records which value was compared with == / an ordering operator, not by which side",
@@ -101,6 +109,12 @@ class V:
         self.tag, self.script = tag, script
         self.ek = self.ok = self.ck = None
         self.partner = self          # the value at the same position of the other operand
+        self.truth = "T"             # what bool(value) does: "T", "F" or "raises" (must never matter)
+
+    def __bool__(self):
+        if self.truth == "raises":
+            raise ValueError("truth value of a scripted value")
+        return self.truth == "T"
 
     def _do(self, op, other):
         if other is not self.partner:
@@ -261,10 +275,20 @@ def _annotate(body, cfg, force=False):
 _CLASS_CACHE: dict = {}
 
 
+def _redefs(case):
+    """own fields of C that the base class defines too, with other cmp/eq/order arguments (harness-only `redef`).
+    Honoured only when ordering is requested explicitly for C (order=True or cmp=True): C then orders by its
+    own definition and the base's definition is never used on C's instances, so the model need not know it."""
+    if not (case["order"] == "t" or case["cmp"] == "t"):
+        return []
+    return [f for f in case["fields"] if not f["inBase"] and f.get("redef")]
+
+
 def _nobase(case):
     cfg = case.get("cfg", {})
     return bool(cfg.get("nobase")) and not cfg.get("frozen_base") and not case["baseOrdered"] and \
-        case["rhs"] != "super" and not any(f["inBase"] for f in case["fields"])
+        case["rhs"] != "super" and not any(f["inBase"] for f in case["fields"]) and not _redefs(case) and \
+        not case.get("pre")
 
 
 def build(case):
@@ -272,8 +296,9 @@ def build(case):
     cfg = case.get("cfg", {})
     key = (case["api"], case["cmp"], case["eq"], case["order"], case["autoDetect"], tuple(case["own"]),
            case["baseOrdered"], case["subOrdered"], _nobase(case),
-           tuple((f["name"], f["cmp"], f["eq"], f["order"], f["inBase"]) for f in case["fields"]),
-           tuple(sorted((k, str(v)) for k, v in cfg.items() if k != "nobase")))
+           tuple((f["name"], f["cmp"], f["eq"], f["order"], f["inBase"], str(f.get("redef"))) for f in case["fields"]),
+           tuple(sorted((k, str(v)) for k, v in cfg.items() if k != "nobase")),
+           tuple(case.get("pre") or ()))
     got = _CLASS_CACHE.get(key)
     if got is not None:
         return got
@@ -321,8 +346,15 @@ def _build(case, cfg):
             Base = object
         else:
             bdeco = _deco(cfg.get("base_api", "attr.s"))
-            Base = bdeco(order=bool(case["baseOrdered"]), **_bg_kwargs(cfg, "base_slots"))(
-                type("Base", (object,), {f["name"]: _mk_field(f, cfg) for f in base_fields}))
+            base_body = {f["name"]: _mk_field(f, cfg) for f in base_fields}
+            for f in _redefs(case):
+                base_body[f["name"]] = _mk_field(dict(f, **f["redef"]), cfg)
+            bkw = _bg_kwargs(cfg, "base_slots")
+            if _redefs(case):
+                # a frozen dict class re-declaring a field that is a slot of its base cannot read it back on the
+                # pinned tree (known finding K3 of C01/C08/C10, not this property's business): keep that base dict-based
+                bkw["slots"] = False
+            Base = bdeco(order=bool(case["baseOrdered"]), **bkw)(type("Base", (object,), base_body))
         body = {f["name"]: _mk_field(f, cfg) for f in own_fields}
         methods = {DUNDER[op]: _mk_user(op) for op in case["own"]}
         bg = _bg_kwargs(cfg, "slots")
@@ -355,7 +387,45 @@ def _build(case, cfg):
     except BaseException as e:  # noqa: BLE001
         k = _kind(e)
         return {"fieldErrs": [], "clsErr": k if k in ("valueError", "typeError") else "typeError", "classes": None}
-    return {"fieldErrs": [], "clsErr": "ok", "classes": (Base, C, D, F)}
+    # what the classes look like before anything is compared (class-level residue is judged against this)
+    dicts = {K: frozenset(K.__dict__) for K in (Base, C, D) if K is not object}
+    try:
+        _pre_compare(case.get("pre") or (), Base, C, D)
+    finally:
+        del LOG[:]
+    return {"fieldErrs": [], "clsErr": "ok", "classes": (Base, C, D, F), "dicts": dicts}
+
+
+_NE = {"eq": "F", "lt": "T", "le": "T", "gt": "F", "ge": "F"}
+
+
+def _throwaway_pair(K):
+    """two instances of the attrs class K over fresh scripted values (first < second everywhere)"""
+    vx, vy = {}, {}
+    for n in _field_names(K) or []:
+        p = {"same": False, "s": _NE}
+        vx[n], vy[n] = _mk_values({"name": n, "raw": p, "ek": p, "ok": p})
+    return K(**vx), K(**vy)
+
+
+def _pre_compare(pre, Base, C, D):
+    """the earlier life of the class family: instances of the ancestor / a sibling / the subclass are
+    compared (every operator, both ways, and a sort) before C's instances ever are"""
+    for who in pre:
+        if who == "base":
+            K = Base
+        elif who == "sub":
+            K = D
+        elif who == "sib":
+            if Base is object:
+                continue
+            K = attr.s(order=True)(type("Sib", (Base,), {"zz": attr.ib()}))
+        else:
+            K = C
+        if K is object or _field_names(K) is None:
+            continue
+        a, b = _throwaway_pair(K)
+        _warm_up(a, b)
 
 
 def _pair_up(a, b):
@@ -379,6 +449,18 @@ def _mk_values(f):
             ky = V(n + ":" + view, _mirror(f[pk]["s"]))
             _pair_up(getattr(X, view), ky)
             setattr(Y, view, ky)
+    truth = f.get("truth")
+    if truth:
+        # falsy (or bool()-raising) raw values and key results: e.g. order=len on "", order=lambda v: v % 3
+        for side, val in (("x", X), ("y", Y)):
+            t = truth.get(side, {})
+            if side == "y" and val is X:
+                continue
+            val.truth = t.get("raw", "T")
+            for view, pk in (("ek", "ek"), ("ok", "ok"), ("ck", "ok")):
+                kv = getattr(val, view)
+                if side == "x" or kv is not getattr(X, view):
+                    kv.truth = t.get(pk, "T")
     return X, Y
 
 
@@ -439,7 +521,7 @@ def _warm_up(x, y):
 
 def _field_names(inst):
     try:
-        return [a.name for a in attr.fields(type(inst))]
+        return [a.name for a in attr.fields(inst if isinstance(inst, type) else type(inst))]
     except BaseException:  # noqa: BLE001
         return None
 
@@ -522,7 +604,7 @@ def _observe(case):
         elif rhs == "sub":
             y = D(**vals[1])
         elif rhs == "super":
-            y = Base(**{f["name"]: vals[1][f["name"]] for f in fs if f["inBase"]})
+            y = Base(**{n: vals[1][n] for n in _field_names(Base)})
         else:
             y = F(**vals[1]) if fk == "twin" else object() if fk == "object" else 5 if fk == "int" else None
         return x, y
@@ -556,6 +638,9 @@ def _observe(case):
         names = _field_names(inst)
         if names is not None:
             residue.update(k for k in getattr(inst, "__dict__", {}) if k not in names)
+    for K, before in b.get("dicts", {}).items():
+        # (`__slotnames__` is copyreg's own cache, written by copy.copy / attr.assoc in the histories)
+        residue.update(K.__name__ + "." + k for k in K.__dict__ if k not in before and k != "__slotnames__")
     obs["residue"] = sorted(residue)
     return obs
 
@@ -596,6 +681,10 @@ def dist(case, obs):
         "rhs": case["rhs"],
         "block": case.get("block"),
         "hist": (case.get("hist") or {}).get("kind"),
+        "pre": "+".join(case.get("pre") or []) or "-",
+        "falsy_keys": sum(1 for f in case["fields"] if f.get("truth") and any(
+            v != "T" for side in f["truth"].values() for k, v in side.items() if k != "raw")),
+        "redef": sum(1 for f in case["fields"] if f.get("redef")),
         "hist_who": (case.get("hist") or {}).get("who"),
         "frozen": bool(cfg.get("frozen") or cfg.get("frozen_base")),
         "residue": len(o.get("residue", [])),
@@ -749,6 +838,7 @@ def _case(rng, fields, rhs="same", cls=None, block=None, **over):
          "block": block}
     c.update(over)
     c.setdefault("hist", None)
+    _decorate(rng, c)
     if fields and rng.random() < 0.5:
         # field names in another order than the alphabet (the order tuple follows definition order, not names)
         perm = rng.sample(NAMES, len(fields))
@@ -757,6 +847,34 @@ def _case(rng, fields, rhs="same", cls=None, block=None, **over):
 
 
 HIST_KINDS = ["rekey", "rebind", "assoc", "evolve", "copy"]
+PRES = [["base"], ["base"], ["sub", "base"], ["base", "sib"], ["sib"], ["sib", "base", "sub"], ["sub"], ["base", "sub"]]
+TRUTHS = ["T", "T", "F", "F", "raises"]
+REDEFS = [{"cmp": "unset", "eq": "unset", "order": "unset"}, {"cmp": "unset", "eq": "unset", "order": "key"},
+          {"cmp": "unset", "eq": "unset", "order": "f"}, {"cmp": "unset", "eq": "key", "order": "unset"},
+          {"cmp": "key", "eq": "unset", "order": "unset"}, {"cmp": "unset", "eq": "f", "order": "unset"}]
+
+
+def _rand_truth(rng):
+    """what bool() does on the raw value and on the key results of each operand's value"""
+    return {side: {k: rng.choice(TRUTHS) for k in ("raw", "ek", "ok")} for side in ("x", "y")}
+
+
+def _decorate(rng, c, p_truth=0.35, p_pre=0.3, p_redef=0.3):
+    """harness-only dimensions of a case: truthiness of values / key results, earlier comparisons in the class
+    family, base-class definitions that C overrides"""
+    fs = []
+    for f in c["fields"]:
+        f = dict(f)
+        f["truth"] = _rand_truth(rng) if rng.random() < p_truth else None
+        f["redef"] = None
+        if not f["inBase"] and rng.random() < p_redef:
+            r = rng.choice(REDEFS)
+            if (r["cmp"], r["eq"], r["order"]) != (f["cmp"], f["eq"], f["order"]):
+                f["redef"] = dict(r)
+        fs.append(f)
+    c["fields"] = fs
+    c["pre"] = list(rng.choice(PRES)) if rng.random() < p_pre else []
+    return c
 
 
 def _rand_hist(rng, fields, kind=None, who=None, eq_bias=0.5):
@@ -899,7 +1017,7 @@ def _gen_operands(tier, rng):
 
 
 def _gen_random(tier, rng):
-    n = 5000 if tier == "quick" else 600000
+    n = 2500 if tier == "quick" else 600000
     for _ in range(n):
         malformed = rng.random() < 0.12
         k = rng.choice([1, 2, 3, 3, 4, 5])
@@ -948,12 +1066,58 @@ def _gen_history(tier, rng):
                         yield c
 
 
+def _gen_family(tier, rng):
+    """class families: the ancestor (with generated ordering of its own), a sibling or the subclass have been
+    compared before C ever is; C adds order fields to the inherited ones and/or overrides the base's definition
+    of a field (other key, order=False ...)"""
+    reps = 1 if tier == "quick" else 10
+    shapes = [{}, {"order": "key"}, {"eq": "key"}, {"order": "f"}]
+    for cls in (("attrS", "unset", "unset", "t"), ("attrS", "unset", "unset", "unset"), ("define", "unset", "unset", "t"),
+                ("makeClass", "unset", "unset", "t"), ("attrS", "t", "unset", "unset")):
+        for pre in PRES:
+            for base_ord in (True, True, False):
+                for nb in (0, 1, 2):
+                    for sh in shapes:
+                        for _ in range(reps):
+                            bias = rng.choice([0.5, 0.8])
+                            fields = [_plain_field(rng, NAMES[i], eq_bias=0.85, inBase=True, **(sh if rng.random() < 0.4 else {}))
+                                      for i in range(nb)]
+                            fields += [_plain_field(rng, NAMES[nb + i], eq_bias=bias, **(sh if i == 0 else {}))
+                                       for i in range(rng.choice([1, 1, 2]))]
+                            c = _case(rng, fields, rhs=rng.choice(["same", "same", "same", "identical", "sub", "super"]), cls=cls,
+                                      block="family", baseOrdered=base_ord, subOrdered=rng.random() < 0.6)
+                            _decorate(rng, c, p_truth=0.2, p_pre=0.0, p_redef=0.5)
+                            c["pre"] = list(pre)
+                            yield c
+
+
+def _gen_truth(tier, rng):
+    """key functions whose RESULT is falsy (order=len on "", order=lambda v: v % 3 ...) or whose bool() raises,
+    and falsy raw values: the keyed object is still the one compared"""
+    reps = 1 if tier == "quick" else 8
+    shapes = [{"order": "key"}, {"eq": "key"}, {"cmp": "key"}, {"eq": "key", "order": "key"}, {"eq": "key", "order": "t"},
+              {"inBase": True, "order": "key"}, {}]
+    for sh in shapes:
+        for tx in itertools.product(["T", "F", "raises"], repeat=2):
+            for ty in itertools.product(["T", "F", "raises"], repeat=2):
+                for _ in range(reps):
+                    k = rng.choice([1, 2, 2, 3])
+                    j = rng.randrange(k)
+                    fields = [_plain_field(rng, NAMES[i], eq_bias=0.5 if i == j else 0.8, **(sh if i == j else {})) for i in range(k)]
+                    c = _case(rng, fields, rhs=rng.choice(["same", "same", "same", "identical"]), block="truth")
+                    c["fields"][j]["truth"] = {"x": {"raw": rng.choice(TRUTHS), "ek": tx[0], "ok": tx[1]},
+                                               "y": {"raw": rng.choice(TRUTHS), "ek": ty[0], "ok": ty[1]}}
+                    yield c
+
+
 def gen_cases(tier, rng):
     yield from _gen_class_table(tier, rng)
     yield from _gen_field_table(tier, rng)
     yield from _gen_positions(tier, rng)
     yield from _gen_operands(tier, rng)
     yield from _gen_history(tier, rng)
+    yield from _gen_family(tier, rng)
+    yield from _gen_truth(tier, rng)
     yield from _gen_concrete(tier, rng)
     yield from _gen_random(tier, rng)
 
@@ -972,6 +1136,14 @@ def shrink(case):
     fs = case["fields"]
     for i in range(len(fs)):
         yield _drop_field(case, i)
+    if case.get("pre"):
+        yield dict(case, pre=[])
+        for i in range(len(case["pre"])):
+            yield dict(case, pre=case["pre"][:i] + case["pre"][i + 1:])
+    for i, f in enumerate(fs):
+        for k in ("truth", "redef"):
+            if f.get(k):
+                yield dict(case, fields=fs[:i] + [dict(f, **{k: None})] + fs[i + 1:])
     h = case.get("hist")
     if h:
         yield dict(case, hist=None)
@@ -1018,6 +1190,10 @@ def neighbours(case, rng):
     for kind in HIST_KINDS:
         for who in ("x", "y", "both"):
             yield dict(case, hist=_rand_hist(rng, fs, kind, who), rhs="same")
+    for pre in PRES:
+        yield dict(case, pre=list(pre), rhs="same")
+    for _ in range(6):
+        yield dict(case, fields=[dict(f, truth=_rand_truth(rng)) for f in fs], rhs="same")
     for i, f in enumerate(fs):
         for _ in range(4):
             g = dict(f, raw=_rand_pair(rng), ek=_rand_pair(rng), ok=_rand_pair(rng), nat=None)
@@ -1047,6 +1223,7 @@ LEVEL_TEXT = (
     "ordered pairs with key functions, subset partial order, NaN, operand kinds x method provenance, random fill with malformed "
     "stream, background variation (slots, frozen, aliases, annotated fields, decorator reuse), and histories (instances compared "
     "before with other values, then key results / fields changed behind them or via assoc/evolve/copy; nothing may be left on the "
-    "instances). CPython's tuple comparison and "
+    "instances or classes), class-family histories (ancestor/sibling/subclass compared first; overriding redefinitions), and "
+    "falsy / bool()-raising key results. CPython's tuple comparison and "
     "rich-comparison dispatch are modelled as small functions and observed, not proved; values' reflected comparisons are assumed "
     "to agree (y-side scripted values answer with the mirror script). Exception classes (auto_exc) and redefined fields are not varied.")
